@@ -225,6 +225,14 @@ func (g *gen) addEnum(pkg *Pkg, file *File, constFile *File) *tinfo {
 		}
 		g.o.class("enum:float")
 	}
+	if g.o.EnumStress {
+		for _, cs := range blk.Specs {
+			if cs.Comment != "" && rapid.IntRange(0, 5).Draw(t, "blockComment") == 0 {
+				cs.BlockComment = true
+				g.o.class("enum:block_comment")
+			}
+		}
+	}
 	constFile.Consts = append(constFile.Consts, blk)
 
 	// extras: an unexported alias of an exported member; an opted-out constant
@@ -540,6 +548,47 @@ func GenTypes(t *rapid.T, o *Opts) *Spec {
 	if o.Aliases && rapid.IntRange(0, 4).Draw(t, "alias") == 0 {
 		g.addAlias(root)
 	}
+	if o.EnumStress && len(g.spec.Pkgs) > 1 && rapid.IntRange(0, 2).Draw(t, "foreignEnumConst") == 0 {
+		// the analysed package declares a constant whose type is an enum of an imported package
+		// (const DefaultKind = kinds.Medium): it is not a member of that enum, which belongs to its own package
+		type cand struct {
+			pkg    *Pkg
+			member string
+			val    string
+		}
+		var cands []cand
+		for _, p := range g.spec.Pkgs[1:] {
+			if !g.imports(root, p) {
+				continue
+			}
+			sameName := 0
+			for _, q := range g.spec.Pkgs {
+				if q.Name == p.Name {
+					sameName++
+				}
+			}
+			if sameName > 1 {
+				continue // the qualifier would be an alias that depends on which packages survive pruning
+			}
+			for _, f := range p.Files {
+				for _, b := range f.Consts {
+					for _, cs := range b.Specs {
+						if len(cs.Names) == 1 && cs.OfType[0] != "" && cs.Names[0] != "_" && cs.Names[0][0] >= 'A' && cs.Names[0][0] <= 'Z' {
+							cands = append(cands, cand{p, cs.Names[0], cs.Vals[0]})
+						}
+					}
+				}
+			}
+		}
+		if len(cands) > 0 {
+			c := cands[rapid.IntRange(0, len(cands)-1).Draw(t, "foreignEnumConstOf")]
+			name := g.constName(root, "Default"+c.member, 0, true, "foreignEnumConstName")
+			root.Files[0].Consts = append(root.Files[0].Consts, &Block{Grouped: false, Specs: []*ConstSpec{{
+				Names: []string{name}, Exprs: []string{g.spec.qualifier(c.pkg.Path) + "." + c.member}, Vals: []string{c.val}, OfType: []string{""}}}})
+			root.Files[0].Raw += fmt.Sprintf("//import %q\n", c.pkg.Path)
+			o.class("enum:constant_of_imported_enum_declared_in_root")
+		}
+	}
 	if o.EnumStress && rapid.IntRange(0, 3).Draw(t, "untypedConsts") == 0 {
 		root.Files[0].Consts = append(root.Files[0].Consts, &Block{Grouped: true, Specs: []*ConstSpec{
 			{Names: []string{g.constName(root, "Untyped", 0, true, "untypedName")}, Exprs: []string{"1"}, Vals: []string{"1"}, OfType: []string{""}, Comment: "not a typed constant"},
@@ -795,13 +844,30 @@ func (g *gen) pruneUnusedPkgs() {
 			walk(a)
 		}
 	}
-	for _, f := range g.spec.Root().Files {
-		for _, d := range f.Decls {
-			walk(d.Type)
-			for _, fl := range d.Fields {
-				walk(fl.Type)
+	scan := func(p *Pkg) {
+		for _, f := range p.Files {
+			for _, d := range f.Decls {
+				walk(d.Type)
+				for _, fl := range d.Fields {
+					walk(fl.Type)
+				}
+			}
+			for _, imp := range rawImports(f.Raw) {
+				used[imp] = true
 			}
 		}
+	}
+	scan(g.spec.Root())
+	// transitively: what the kept packages use themselves
+	for changed := true; changed; {
+		changed = false
+		n := len(used)
+		for _, p := range g.spec.Pkgs[1:] {
+			if used[p.Path] {
+				scan(p)
+			}
+		}
+		changed = len(used) != n
 	}
 	keep := []*Pkg{g.spec.Root()}
 	for _, p := range g.spec.Pkgs[1:] {
